@@ -201,6 +201,29 @@ func c01Gen(r *rand.Rand, tier string) any {
 				e := eds[r.IntN(len(eds))]
 				sc.Ops = append(sc.Ops, opSpec{Op: "build", Label: label}, e[0], opSpec{Op: "build", Label: label, CrashAt: 1 + r.IntN(700)}, e[1], opSpec{Op: "build", Label: label})
 			}
+		case k < 18 && r.IntN(3) == 0:
+			// an interrupted dependency: a source of a dependency is edited, the rebuild dies
+			// (often inside that dependency's body), the dependency alone is built by the next
+			// process, and then the dependent
+			label := pickLabel(r, shadow)
+			var cands [][2]string
+			for _, t := range shadow.closure(label) {
+				if t.label() == label {
+					continue
+				}
+				for _, s := range t.Sources {
+					if rel := shadow.sourceRel(t, s); shadow.Files[rel] != "" && !strings.HasPrefix(shadow.Files[rel], linkMark) && shadow.generatorOf(rel) == nil {
+						cands = append(cands, [2]string{t.label(), rel})
+					}
+				}
+			}
+			if len(cands) > 0 {
+				d := cands[r.IntN(len(cands))]
+				ed := opSpec{Op: "edit-source", Path: d[1], N: 2000 + i}
+				shadow.applySpecEdit(&ed)
+				sc.Ops = append(sc.Ops, opSpec{Op: "build", Label: label}, ed, opSpec{Op: "build", Label: label, CrashAt: 1 + r.IntN(500)},
+					opSpec{Op: "build", Label: d[0]}, opSpec{Op: "build", Label: label})
+			}
 		case k < 18 && r.IntN(2) == 0:
 			// a flaky step on a loaded project (the REPL's run() twice, an embedder): a target
 			// runs because its output is missing - or because the run is forced -, its body
